@@ -440,7 +440,15 @@ func (w *worker[T, JobType]) goListenToContext() {
 	go func(c context.Context) {
 		<-c.Done()
 
-		w.Stop()
+		// Restart cancels the context of the previous run by itself and installs a new one:
+		// only the listener of the worker's current context stops the worker
+		w.mx.RLock()
+		current := w.ctx == c
+		w.mx.RUnlock()
+
+		if current {
+			w.Stop()
+		}
 	}(w.ctx)
 }
 
